@@ -6,7 +6,9 @@ from vlib import Ob, run_all
 
 TYPES = ["bool", "char", "schar", "uchar", "short", "ushort", "int", "uint", "long", "ulong", "llong", "ullong",
          "float", "double", "ldouble"]
-NATIVE = ["/repo/mir.c"]   # native replay only: c2mir.c references the MIR API at link time
+# native replay only: c2mir.c references the MIR API (never called by these harnesses); leaving the symbols
+# unresolved saves compiling mir.c with ASan for every reproduced counterexample (30 s -> 8 s)
+NATIVE = ["-no-pie", "-Wl,--unresolved-symbols=ignore-all"]
 LOOPS = {"h_cc#0": 17, "memset#0": 17, "memset#1": 130, "memcpy#0": 17, "memcpy#1": 130}
 
 
@@ -51,31 +53,11 @@ def check(tier, only=None):
             "A constant is represented as c2mir does: i_val sign-extended for signed types, u_val zero-extended for "
             "unsigned types and _Bool, d_val (long double) holding a float/double/long double value; the source constant "
             "is assumed to be a value of its type.",
+            "long double: CBMC models it as a 128-bit IEEE format, not as the x87 80-bit extended format; the long double "
+            "obligations establish that cast_value applies the same C conversion as the oracle for CBMC's format; "
+            "counterexamples are confirmed natively on x87 values.",
             "The oracle expresses value conversions by C casts between fixed-width types, i.e. by the reference "
             "compiler's semantics (CBMC's C semantics in the model, gcc in the native replay).",
         ],
     }
     return run_all("C07", tier, obs, "model_checking", meta)
-
-
-def replay(path):
-    """./check C07 --replay <path>: as vlib.replay_file, plus mir.c on the native link line."""
-    import os, re, shutil, tempfile
-    import vlib
-    m = re.match(r"# harness=(\S+) defs=(.*)$", open(path).readline().strip())
-    if not m:
-        print("not a replay file: " + path)
-        return 2
-    o = Ob("replay", m.group(1), defs=m.group(2).split(), native_cc=NATIVE)
-    scratch = tempfile.mkdtemp(prefix="verif-replay-")
-    try:
-        exe, err = vlib.build_native(o, scratch)
-        if exe is None:
-            print(err)
-            return 2
-        env = dict(os.environ, ASAN_OPTIONS="detect_leaks=0", UBSAN_OPTIONS="print_stacktrace=1")
-        rc, out, _ = vlib.run([exe, path], 120, 0, env=env)
-        print(out)
-        return 0 if rc == 0 else 1
-    finally:
-        shutil.rmtree(scratch, ignore_errors=True)
